@@ -286,7 +286,8 @@ def r02k(prog: Program, chk: Check) -> None:
     )
     nm = nmod.NarrowModel(prog)
     U, T = nmod.UNIVERSE, nmod.TYPES
-    vals = [("AnyValue", None)] + [("KnownValue", o) for o in U] + [("TypedValue", t) for t in T]
+    CLASSES = tuple(o for o in U if isinstance(o, type))
+    vals = [("AnyValue", None)] + [("KnownValue", o) for o in U] + [("TypedValue", t) for t in T] + [("SubclassValue", t) for t in CLASSES + (object,)]
     classes: Dict[str, List[dict]] = {}
     counts: Dict[str, int] = {}
     total = 0
@@ -294,7 +295,7 @@ def r02k(prog: Program, chk: Check) -> None:
     def check(kind: str, fields: dict, cond, tested, label: str) -> None:
         nonlocal total
         for vk, vp in vals:
-            V = nm.value(vk, vp)
+            V = nm.value(vk, nm.value("TypedValue", vp) if vk == "SubclassValue" else vp)
             mv = nmod.members(V)
             for pos in (True, False):
                 total += 1
@@ -324,6 +325,15 @@ def r02k(prog: Program, chk: Check) -> None:
         for ts in itertools.combinations(T, r):
             pat = nm.unite([nm.value("TypedValue", t) for t in ts])
             check("IsAssignablePredicate", dict(pattern_value=pat, positive_only=False, runtime_check=True), lambda o, ts=ts: isinstance(o, ts), nmod.members(pat), "isinstance(x, (" + ", ".join(t.__name__ for t in ts) + "))")
+    # issubclass(x, C) / issubclass(x, (C, D)): the predicate _issubclass_impl builds
+    for r in (1, 2):
+        for ts in itertools.combinations(CLASSES + (object,), r):
+            pat = nm.unite([nm.value("SubclassValue", nm.value("TypedValue", t)) for t in ts])
+
+            def cond_sub(o, ts=ts):
+                return issubclass(o, ts) if isinstance(o, type) else None  # issubclass() of a non-class raises
+
+            check("IsAssignablePredicate", dict(pattern_value=pat, positive_only=False, runtime_check=False), cond_sub, nmod.members(pat), "issubclass(x, (" + ", ".join(t.__name__ for t in ts) + "))")
     for v in U:
         for use_is in (False, True):
             def cond(o, v=v, use_is=use_is):
@@ -344,6 +354,16 @@ def r02k(prog: Program, chk: Check) -> None:
             return o in vs
 
         check("InPredicate", dict(pattern_vals=vs, pattern_type=type(vs[0])), cond_in, frozenset(i for i, o in enumerate(U) if any(nmod.same(o, v) for v in vs)), "x in " + repr(vs))
+    # containment in a string is a substring test, in bytes a subsequence / byte test: not membership among the items
+    for container in ("a", "ab", "b", b"a"):
+        def cond_sub(o, container=container):
+            try:
+                return o in container
+            except TypeError:
+                return None  # the comparison itself raises: no branch is taken
+
+        items = list(container)
+        check("InPredicate", dict(pattern_vals=container, pattern_type=type(items[0])), cond_sub, frozenset(i for i, o in enumerate(U) if any(nmod.same(o, v) for v in items)), "x in " + repr(container))
     chk.model_evaluations += total
     chk.analysed["narrowing_model"] = {"applications": total, "universe": [repr(o) for o in U], "classes": [t.__name__ for t in T]}
     site = f"pyanalyze/predicates.py"
